@@ -443,7 +443,8 @@ func (g *G) msgAddress(v reflect.Value) {
 			a.AddrVar.Anycast.Exists = true
 			a.AddrVar.Anycast.Value = *ac
 		}
-		n := []int{256, 0, 1, 9, 255, 257, 511}[g.choose(7)]
+		// lengths around the 64-character text form of a standard address (249..251 bits print as 64 characters ending in '_')
+		n := []int{256, 0, 1, 9, 255, 257, 511, 248, 249, 250, 251, 252, 253}[g.choose(13)]
 		a.AddrVar.AddrLen = tlb.Uint9(n)
 		a.AddrVar.WorkchainId = []int32{0, -1, 1 << 30, -(1 << 31), 127, 128, -129}[g.choose(7)]
 		b := bits.Pattern(g.Seed+2, n)
